@@ -271,6 +271,39 @@ def h_embed(i):
     return h
 
 
+def _ntok(tok):
+    import bitstring
+    return len(bitstring.utils.tokenparser(tok)[1])
+
+
+def h_embed_lsb0(i):
+    """the same claim with options.lsb0 set.  The stored order of a token string is the same in both modes (pinned by the test suite) and is
+    asserted unconditionally; equality with pack() is the property's claim and is a recorded known finding for strings of two or more tokens"""
+    def h(K):
+        import bitstring
+        tok, eq = EMBED[i]
+        fmt, vals = eq
+        cls = K.choice('cls', [bitstring.Bits, bitstring.BitArray, bitstring.ConstBitStream, bitstring.BitStream])
+        r0 = call(lambda: cls(tok))
+        bitstring.options.lsb0 = True
+        try:
+            r = call(lambda: cls(tok))
+            p = call(lambda: bitstring.pack(fmt, *vals))
+            p2 = call(lambda: bitstring.pack(tok))
+        finally:
+            bitstring.options.lsb0 = False
+        if not r.ok and isinstance(r.exc, ValueError) and any(g in tok for g in ('ue', 'se', 'uie', 'sie')):
+            return K.check((not p.ok) and (not p2.ok), 'exp-Golomb tokens are documented as unavailable in lsb0 mode: every route must refuse', exc=p.excname)
+        if not (r0.ok and r.ok and p.ok and p2.ok):
+            return K.fail_hard('token string or pack raised in lsb0 mode', tok=tok, exc=r.excname or p.excname or p2.excname)
+        if not same(raw(r.value), raw(r0.value)):
+            return K.fail_hard('a token string is stored differently in lsb0 and msb0 mode', tok=tok)
+        if not same(raw(p2.value), raw(p.value)):
+            return K.fail_hard('pack(token string with values) differs from pack with separate values in lsb0 mode', tok=tok)
+        return K.check(same(raw(r.value), raw(p.value)), 'lsb0 mode: token string with embedded values differs from pack with separate values', tok=tok, string=raw(r.value), packed=raw(p.value))
+    return h
+
+
 def h_kw_values():
     """pack with values given by keyword equals pack with positional values"""
     def h(K):
@@ -339,6 +372,9 @@ def conditions(tier):
         add(f'C05.compose[{e}]', h_compose(e), f'format {fmt!r}: every split of its top-level token list into two formats', entry=e)
     for i, (tok, _) in enumerate(EMBED):
         add(f'C05.embedded[{tok}]', h_embed(i), 'concrete token string with embedded values, four classes')
+    for i, (tok, eq) in enumerate(EMBED):
+        if eq is not None:
+            conds.append(Cond(f'C05.embedded-lsb0[{tok}]', h_embed_lsb0(i), 'concrete token string with embedded values, four classes, options.lsb0 = True', D, {'ntok': _ntok(tok)}, timeout=T))
     add('C05.kw-values', h_kw_values(), 'a in [0,255], b in [-8,7], n in {4,8}')
     for e in ('stretchy-last', 'stretchy-first', 'stretchy-mid-hex', 'stretchy-bytes', 'stretchy-bytes-tail'):
         for n in ([0, 7, 13, 24] if q else list(range(0, 34))):
